@@ -84,6 +84,10 @@ def conversion_accuracy(ctx, config, w):
                     r = A.analyse(t, {sa: su, sb: sv}, amounts)
                     if r[0] != "l":
                         raise A.Unsupported("result does not depend on the amount")
+                except A.Overflow as x:
+                    ctx.ob("conversion-accuracy", inst, False,
+                           "converting %s to %s (%s) panics in the decimal back-end for EVERY amount: %s" % (u, v, q.path, x), b["span"], nontrivial=False)
+                    continue
                 except A.Unsupported as x:
                     ctx.fail("conversion-accuracy", inst, "cannot analyse the conversion term: %s" % x, b["span"])
                     continue
